@@ -471,7 +471,8 @@ Definition swap_to_front (l : list N) (idx : nat) : list N :=
               end
   end.
 
-Inductive bres := BRet (moved all_balanced : bool) | BPanic.
+(* stop: the Go code left the partition loop with `return` (otherwise it goes on to the next partition) *)
+Inductive bres := BRet (moved all_balanced stop : bool) | BPanic.
 
 (* the leader-swap loop: for every index of the ORIGINAL RaftNodes holding the expected leader *)
 Fixpoint swap_loop (leader : N) (orig : list N) (idx : nat) (ns : rinfo) (r : reg) (moved : bool)
@@ -491,12 +492,12 @@ Fixpoint swap_loop (leader : N) (orig : list N) (idx : nat) (ns : rinfo) (r : re
 (* the tail of the loop body: wait for a marked replica, else move the leader to the front *)
 Definition bal_leader (s : st) (expected move_nodes : list N) (ns : rinfo) (r : reg) (moved : bool)
            (atts : list attempt) : st * bres * list attempt :=
-  if 0 <? len (removings ns) then (upd_reg s r, BRet moved false, atts)
+  if 0 <? len (removings ns) then (upd_reg s r, BRet moved false false, atts)
   else match expected with
   | [] => (upd_reg s r, BPanic, atts)                 (* partitionNodes[pid][0] on an empty slice *)
   | leader :: _ =>
       if ahas leader (removings ns) then
-        (upd_reg s r, BRet moved (negb ((0 <? len move_nodes) || moved)), atts)
+        (upd_reg s r, BRet moved (negb ((0 <? len move_nodes) || moved)) false, atts)
       else
         if (len move_nodes =? 0) && (s_replica s <=? len (isr ns)) &&
            negb (match raft_nodes ns with x :: _ => x =? leader | [] => false end) then
@@ -504,10 +505,10 @@ Definition bal_leader (s : st) (expected move_nodes : list N) (ns : rinfo) (r : 
           | [] => (upd_reg s r, BPanic, atts)         (* RaftNodes[0] on an empty slice *)
           | _ =>
             let '(failed, _, r', moved', atts') := swap_loop leader (raft_nodes ns) 0 ns r moved atts in
-            if failed then (upd_reg s r', BRet moved' false, atts')
-            else (upd_reg s r', BRet moved' (negb ((0 <? len move_nodes) || moved')), atts')
+            if failed then (upd_reg s r', BRet moved' false true, atts')
+            else (upd_reg s r', BRet moved' (negb ((0 <? len move_nodes) || moved')) false, atts')
           end
-        else (upd_reg s r, BRet moved (negb ((0 <? len move_nodes) || moved)), atts)
+        else (upd_reg s r, BRet moved (negb ((0 <? len move_nodes) || moved)) false, atts)
   end.
 
 Definition rebalance (s : st) (place : placement) : st * bres * list attempt :=
@@ -515,13 +516,13 @@ Definition rebalance (s : st) (place : placement) : st * bres * list attempt :=
   let env := s_ans s in
   let r0 := s_reg s in
   let info0 := r_info r0 in
-  if 1 <? r_mode r0 then (s, BRet false false, [])
-  else if s_unstable s || s_upgrading s then (s, BRet false false, [])
-  else if 0 <? len (s_rmnodes s) then (s, BRet false false, [])
-  else if 0 <? len (removings info0) then (s, BRet false true, [])
-  else if negb (all_ready env info0) then (s, BRet false true, [])
+  if 1 <? r_mode r0 then (s, BRet false false true, [])
+  else if s_unstable s || s_upgrading s then (s, BRet false false true, [])
+  else if 0 <? len (s_rmnodes s) then (s, BRet false false true, [])
+  else if 0 <? len (removings info0) then (s, BRet false true false, [])
+  else if negb (all_ready env info0) then (s, BRet false true false, [])
   else match place with
-  | PErr => (s, BRet false false, [])
+  | PErr => (s, BRet false false false, [])
   | PPanic => (s, BPanic, [])
   | PList expected =>
       let move_nodes := filter (fun n => negb (mem n expected)) (isr info0) in
@@ -532,13 +533,13 @@ Definition rebalance (s : st) (place : placement) : st * bres * list attempt :=
             if len (isr info0) <=? replica then add_and_wait env r0 place else (AWOk, r0, []) in
           match res with
           | AWPanic => (upd_reg s r1, BPanic, w1)
-          | AWErr => (upd_reg s r1, BRet false false, w1)
+          | AWErr => (upd_reg s r1, BRet false false true, w1)
           | AWOk =>
             let ns := if len (isr info0) <=? replica then r_info r1 else info0 in
             let '(c, r2, ns2, w2) := remove_from_node replica (s_now s) r1 ns nid in
             match c with
             | COk => bal_leader s expected move_nodes ns2 r2 true (w1 ++ w2)
-            | _ => (upd_reg s r2, BRet true false, w1 ++ w2)
+            | _ => (upd_reg s r2, BRet true false true, w1 ++ w2)
             end
           end
       end
@@ -663,6 +664,13 @@ Inductive event :=
   | EUpgrade (b : bool)     (* pd_api.go SetClusterUpgradeState *)
   | ERegMode (m : N).       (* the register becomes healthy / partly / wholly unreachable *)
 
+(* events that look at no partition's replica info, waiting stamp or data-node answers *)
+Definition is_global (e : event) : bool :=
+  match e with
+  | ENodes _ _ | ETick _ | EFail _ | EAuto _ | EMarkNode _ | EReplica _ | EUpgrade _ | ERegMode _ | ELStart _ => true
+  | _ => false
+  end.
+
 Definition set_answers (env : answers) (l : list (N * option (option (list (N * N)) * bool))) : answers :=
   fold_left (fun e p => match snd p with
                         | None => aremove (fst p) e
@@ -699,7 +707,7 @@ Definition step (s : st) (e : event) : st * ret * list attempt :=
             (s_unstable s) b (s_waiting s) (s_rmnodes s) (s_now s) (s_lnodes s) (s_lstart s) (s_upgrading s), RNone, [])
   | EBalance place =>
       let '(s', b, w) := rebalance s place in
-      (s', match b with BRet m a => RPair m a | BPanic => RPanic end, w)
+      (s', match b with BRet m a _ => RPair m a | BPanic => RPanic end, w)
   | EMarkNode n => (mark_node s n, RNone, [])
   | EProcess place => let '(s', p, w) := process_removing s place in (s', if p then RPanic else RNone, w)
   | ELCheck => let '(r, w) := learner_check s in (upd_reg s r, RNone, w)
